@@ -173,3 +173,52 @@ def write_fcidump(m):
         out.append(f"{v:23.16E} {i:3d} {j:3d}   0   0")
     out.append(f"{m['core']:23.16E}   0   0   0   0")
     return "\n".join(out) + "\n"
+
+
+# ---------------------------------------------------------------------------------------- WFN
+# AIMPAC wavefunction file as written by Gaussian (column layout transcribed from Gaussian 09 output and
+# the AIMPAC FORMAT statements): primitive types 1..35 = S, X Y Z, XX YY ZZ XY XZ YZ, XXX YYY ZZZ XXY XXZ
+# YYZ XYY XZZ YZZ XYZ, ...; MO coefficients refer to UN-normalised Cartesian primitives.
+WFN_TYPES = {1: (0, 0, 0), 2: (1, 0, 0), 3: (0, 1, 0), 4: (0, 0, 1), 5: (2, 0, 0), 6: (0, 2, 0), 7: (0, 0, 2), 8: (1, 1, 0),
+             9: (1, 0, 1), 10: (0, 1, 1), 11: (3, 0, 0), 12: (0, 3, 0), 13: (0, 0, 3), 14: (2, 1, 0), 15: (2, 0, 1),
+             16: (0, 2, 1), 17: (1, 2, 0), 18: (1, 0, 2), 19: (0, 1, 2), 20: (1, 1, 1)}
+
+
+def fortran_d(v, width, digits):
+    """Fortran Dw.d: 0.dddddddD+ee"""
+    if v == 0:
+        s = "0." + "0" * digits + "D+00"
+    else:
+        import math
+        e = int(math.floor(math.log10(abs(v)))) + 1
+        m = abs(v) / 10 ** e
+        ms = f"{m:.{digits}f}"
+        if ms.startswith("1."):          # rounding carried over
+            e += 1
+            ms = f"{abs(v) / 10 ** e:.{digits}f}"
+        s = ("-" if v < 0 else "") + ms + f"D{'+' if e >= 0 else '-'}{abs(e):02d}"
+    return s.rjust(width)
+
+
+def write_wfn(m):
+    """m: title, atoms [(Z, x, y, z) bohr], prims [(centre(1-based), type, exponent)], mos [(occ, energy, [coeffs])],
+    energy, virial."""
+    nprim = len(m["prims"])
+    out = [" " + m["title"]]
+    out.append(f"GAUSSIAN{len(m['mos']):15d} MOL ORBITALS{nprim:7d} PRIMITIVES{len(m['atoms']):9d} NUCLEI")
+    for i, (z, x, y, zz) in enumerate(m["atoms"]):
+        out.append(f"  {NUM2SYM[z]:<3s}{i + 1:3d}    (CENTRE{i + 1:3d}) {x:12.8f}{y:12.8f}{zz:12.8f}  CHARGE ={float(z):5.1f}")
+    for label, vals, per, fmt in (("CENTRE ASSIGNMENTS  ", [p[0] for p in m["prims"]], 20, "{:3d}"),
+                                  ("TYPE ASSIGNMENTS    ", [p[1] for p in m["prims"]], 20, "{:3d}")):
+        for k in range(0, nprim, per):
+            out.append(label + "".join(fmt.format(v) for v in vals[k:k + per]))
+    exps = [p[2] for p in m["prims"]]
+    for k in range(0, nprim, 5):
+        out.append("EXPONENTS " + "".join(fortran_d(v, 14, 7) for v in exps[k:k + 5]))
+    for i, (occ, en, coeffs) in enumerate(m["mos"]):
+        out.append(f"MO{i + 1:5d}     MO 0.0        OCC NO ={occ:13.7f}  ORB. ENERGY ={en:12.6f}")
+        for k in range(0, nprim, 5):
+            out.append("".join(f"{c:16.8E}" for c in coeffs[k:k + 5]))
+    out.append("END DATA")
+    out.append(f" TOTAL ENERGY =  {m['energy']:20.12f} THE VIRIAL(-V/T)={m['virial']:13.8f}")
+    return "\n".join(out) + "\n"
